@@ -241,13 +241,11 @@ class error_999_visitor(pyx12.error_visitor.error_visitor):
         """
         if err_st is None:
             raise EngineError('Cannot create AK2 : err_st is None')
-        if err_st.trn_set_id is None:
-            raise EngineError('Cannot create AK2: err_st.trn_set_id was not set')
-        if err_st.trn_set_control_num is None:
-            raise EngineError('Cannot create AK2: err_st.trn_set_control_num was not set')
+        # a header cut short (ST*837) has no control number: the set is still named, and
+        # the rest of the acknowledgement still written
         seg_data = pyx12.segment.Segment('AK2', '~', '*', ':')
-        seg_data.set('01', self._echo(err_st.trn_set_id))
-        seg_data.set('02', self._echo(err_st.trn_set_control_num).strip())
+        seg_data.set('01', self._echo(err_st.trn_set_id) or '')
+        seg_data.set('02', (self._echo(err_st.trn_set_control_num) or '').strip())
         if err_st.vriic is not None:
             # AK203 is situational: echo ST03 only when the transaction set carried one
             seg_data.set('03', self._echo(err_st.vriic))
